@@ -53,6 +53,7 @@ pub struct Flow<B, State> {
 
 // pub(crate) for tests to inspect state
 #[derive(Debug)]
+#[cfg_attr(hoot_verif, derive(Clone))]
 pub(crate) struct Inner<B> {
     pub call: CallHolder<B>,
     pub close_reason: ArrayVec<CloseReason, 4>,
@@ -111,6 +112,16 @@ impl CloseReason {
             CloseReason::ServerConnectionClose => "server sent Connection: close",
             CloseReason::Not100Continue => "got non-100 response before sending body",
             CloseReason::CloseDelimitedBody => "response body is close delimited",
+        }
+    }
+}
+
+#[cfg(hoot_verif)]
+impl<B: Clone, S> Clone for Flow<B, S> {
+    fn clone(&self) -> Self {
+        Flow {
+            inner: self.inner.clone(),
+            _ph: PhantomData,
         }
     }
 }
@@ -883,5 +894,25 @@ impl<B> Flow<B, Cleanup> {
 impl<B, State: Named> fmt::Debug for Flow<B, State> {
     fn fmt(&self, f: &mut fmt::Formatter<'_>) -> fmt::Result {
         write!(f, "Flow<{}>", State::name())
+    }
+}
+
+
+#[cfg(hoot_verif)]
+#[allow(private_bounds)]
+impl<B, State: Named> Flow<B, State> {
+    /// Verification hook: dump of the complete internal state of the flow.
+    pub fn verif_fingerprint(&self) -> String {
+        let i = &self.inner;
+        format!(
+            "Flow<{}>|{}|close={:?}|send_body={}|await100={}|status={:?}|location={:?}",
+            State::name(),
+            i.call.verif_fingerprint(),
+            &i.close_reason[..],
+            i.should_send_body,
+            i.await_100_continue,
+            i.status.map(|s| s.as_u16()),
+            i.location,
+        )
     }
 }
